@@ -4,6 +4,7 @@ CONFIG = {
     "runs": props.simple("c03", 150, 2500),
     "status": "full (Coq, Props/C03.v, for every WFQ circuit with positive root count and every in-range literal list, "
               "duplicates/contradictions/core literals included): C03_sat_correct: sat = (0 < MCA); "
+              "C03_sat_contradictory_false: a list with both x and -x is unsatisfiable; "
               "C03_sat_incremental: on a shared mark vector the k-th answer = (0 < MCA of all literals asserted so far) while "
               "all earlier answers were true; C03_sat_incremental_strong: same while no earlier call was cut short by the core "
               "test; C03_sat_incremental_proviso_needed: witness that the proviso cannot be dropped (a call refuted by the core "
